@@ -8,6 +8,7 @@ from .executor import Executor
 from .generator import Generator
 
 MAX_STEPS = 120
+MAX_STEPS_HAMMER = 420     # K8: up to 150 repeats, each followed by a drop, plus the re-ask rounds
 
 
 def child_main(job, ask):
@@ -23,7 +24,7 @@ def child_main(job, ask):
     if mode == "generate":
         gen = Generator(job["seed"], job["batch"], job.get("tier", "quick"), job)
         cfg = gen.describe_config()
-        while len(steps) < MAX_STEPS:
+        while len(steps) < (MAX_STEPS_HAMMER if job["batch"] == "K8" else MAX_STEPS):
             try:
                 st = gen.next(ex)
             except Exception:
